@@ -731,7 +731,7 @@ impl Table for SdtT {
         if level == 0 {
             vec![Ctor::new(2, 36, 2)]
         } else {
-            vec![Ctor::new(2, 36, 2), Ctor::new(0, 37, 0), Ctor::new(1, 40, 1), Ctor::new(2, 255, 3)]
+            vec![Ctor::new(2, 36, 2), Ctor::new(0, 37, 0), Ctor::new(1, 40, 1), Ctor::new(2, 255, 3), Ctor::new(3, 36, 2), Ctor::new(4, 38, 2), Ctor::new(5, 36, 2), Ctor::new(6, 41, 2)]
         }
     }
     fn ctor_fields(&self) -> Vec<FT> {
